@@ -12,12 +12,15 @@ TB = ("Trusted: Coq 8.16.1 kernel; axioms as printed by Print Assumptions under 
 # property -> dict(claimed, text, note, technique, design_ref) ; unclaimed ones carry a reason
 P = {
  "C05": dict(claimed=True,
-   text="Unbounded Coq theorems over the Range model (Range.v): every precondition-respecting history keeps the "
-        "range well formed and panic-free (C05_history_wf, induction over the op list); set_value / from_sparse / "
-        "range(window) / new characterised cell by cell against bounding-box specs; accessors agree under Wf. "
-        "The model is tied to src/lib.rs by running random histories (every accessor dumped after every step) "
-        "through the real Range<Data> and the extracted model; a naive dictionary spec is the search oracle.",
-   note=TB + " Range<Data> with Int/Empty values stands for every CellType; ranges of >= 2^32 cells excluded by precondition.",
+   text="Unbounded Coq theorems over the Range model (Range.v, mirroring the hardened lib.rs): every precondition-respecting history "
+        "keeps the range well formed and panic-free (C05_history_wf, C05_history_wf_head: induction over the op list); set_value / "
+        "from_sparse (sorted or not: C05_from_sparse_spec_unsorted) / range(window) / new characterised cell by cell against "
+        "bounding-box specs; accessors agree under Wf. Totality: C05_no_panic_from_sparse (no hypothesis at all), C05_no_panic_new / "
+        "_window / _set_value under exactly the conditions the code still needs (C05_new_panic_iff, C05_window_panic_iff). "
+        "C05_refuted_from_sparse_alloc: two far-apart cells request width x height cells (the dense design; recorded for C06). "
+        "Tie: random histories (every accessor dumped after every step, in and outside the preconditions) through the real "
+        "Range<Data> and the extracted model; a naive dictionary spec is the search oracle.",
+   note=TB + " Range<Data> with Int/Empty values stands for every CellType; rectangles of 2^32 cells or more are reasoned about in the model only (not run).",
    technique="Coq proof (induction over operation histories, flat-index lemmas) + extracted-model correspondence",
    design_ref="5/C05"),
  "C07": dict(claimed=True,
@@ -53,14 +56,17 @@ P = {
    technique="Coq proof with Flocq binary64 (exactness of the day product, calendar bijection by era decomposition) + extracted-model correspondence",
    design_ref="5/C11"),
  "C12": dict(claimed=True,
-   text="Coq theorem C12_sst_any_split: for every string table and every legal layout (CONTINUE cuts between strings, inside character "
-        "data with a fresh compression flag, inside rgRun/ExtRst; any per-segment 8/16-bit packing) outside the known class, "
-        "parse_sst (sst_encode strs lay) = the stored texts — unbounded induction over strings and segments; plus string_read_exact, "
-        "later_strings_unaffected, layout_irrelevant, labelsst_resolves, record_iter_collects, sheet names / LABEL / STRING, fuel "
-        "totality. Known class CutInsidePair (F24) with refutation lemma and exactness of the class. Tie: hooks parse_sst/records/"
-        "parse_string on extracted encodings, malformed fragments (panic prediction), generated .xls files through Xls::new.",
+   text="Coq theorem C12_sst_any_split: for every string table and EVERY legal layout (CONTINUE cuts between strings, inside character "
+        "data with a fresh compression flag — including between the two halves of a surrogate pair —, inside rgRun/ExtRst; any "
+        "per-segment 8/16-bit packing) parse_sst (sst_encode strs lay) = the stored texts — unbounded induction over strings and "
+        "segments with the streaming-decoder state; plus string_read_exact, later_strings_unaffected, layout_irrelevant, "
+        "labelsst_resolves, record_iter_collects, sheet names / LABEL / STRING, C12_decoder_chunks. No known class left (CutInsidePair "
+        "repaired in /repo by 55da979). Totality: C12_no_panic_parse_sst (all inputs: not Panic; not OutOfFuel at fuel 1 + total "
+        "bytes; 3 x requested capacity <= total bytes), _short_string, _record_iter, _parse_string, _parse_label(_sst), "
+        "_sheet_metadata, _wb_strings. Tie: hooks parse_sst/records/parse_string on extracted encodings, malformed fragments "
+        "(outcome-class prediction), generated .xls files through Xls::new.",
    note=TB + " Code pages other than 1200 and BIFF2-5 string branches are not modelled.",
-   technique="Coq proof (induction over strings/segments with a reader-position invariant) + extracted-model correspondence",
+   technique="Coq proof (induction over strings/segments with a reader-position and decoder-state invariant) + extracted-model correspondence",
    design_ref="5/C12"),
  "C15": dict(claimed=True,
    text="Coq theorems over SharedFmla.v, for every oracle is_alnum (char::is_alphanumeric) that is right on ASCII: "
@@ -117,12 +123,14 @@ P = {
  "C18": dict(claimed=True,
    text="Coq theorems over Ovba.v/OvbaDir.v: C18_decompress_inverts_encode — for every list of valid chunks (raw chunks; any mixture of "
         "literal and copy tokens within the MS-OVBA limits; any number of chunks) decompress (ovba_encode cs) = concat (map sem cs), "
-        "unbounded induction over chunks, flag groups and tokens with stated fuel; copy-token codec proved arithmetically per bit "
-        "count, bit count = max 4 ceil(log2 d), overlapping copy = bytewise copy, never OutOfFuel on any input; dir-stream round "
-        "trip (code page, references of three kinds, modules), module content from the recorded offset, whole-project round trip, "
-        "module lookup. Known class nameless_reference. Tie: hook decompress_stream on extracted encodings under literal-only / "
-        "greedy / random / raw tokenisations and malformed containers (panic prediction), VbaProject::new and vba_project() on "
-        "generated containers.",
+        "unbounded induction over chunks, flag groups and tokens; copy-token codec proved arithmetically per bit count, overlapping "
+        "copy = bytewise copy; C18_dir_roundtrip and C18_vba_project_roundtrip unconditional (code page, references of three kinds "
+        "with or without their optional name record, modules); C18_module_text_is_codepage_decoding (for every decoder: get_module = "
+        "the decoder of the project's code page applied to get_module_raw = decompress of the stream from the recorded offset). No "
+        "known class left (nameless_reference repaired in /repo by b2fb93c). Totality: C18_no_panic_decompress (every byte string: "
+        "not Panic, not OutOfFuel, output <= 4096 x chunks, 2 x chunks <= input length - 1), C18_no_panic_dir. Tie: hook "
+        "decompress_stream on extracted encodings under literal-only / greedy / random / raw tokenisations and malformed containers, "
+        "VbaProject::new and vba_project() on generated containers incl. multi-byte code pages against Python codecs.",
    note=TB + " Code pages are a decoder parameter (theorems hold for every decoder); the order of get_module_names is not modelled.",
    technique="Coq proof (induction over chunks/tokens, div/mod arithmetic for the token codec) + extracted-model correspondence",
    design_ref="5/C18"),
@@ -156,20 +164,19 @@ P = {
    technique="Coq proof (A1 arithmetic, induction over event lists and region lists, reduction to window_spec) + extracted-model correspondence",
    design_ref="5/C17"),
  "C20": dict(claimed=True,
-   text="Coq theorems over Password.v/PasswordCfb.v: C20_filepass_is_password (+ _workbook/_book through the stream lookup of Xls::new): "
-        "for any leading records with their CONTINUEs that the globals loop passes over, any FILEPASS body (any encryption type) and "
-        "any well-framed records after it the result is Err Password; C20_encrypted_ooxml_is_password(_bytes): a directory chain with "
-        "an EncryptedPackage entry at any index (any other entries, both sector sizes, any bytes behind the name terminator) is "
-        "reported; C20_ods_encryption_data_is_password and C20_ods_manifest_spec (Password exactly when some entry declares "
-        "encryption-data, any number of entries, any prefix spelling); and the converse C20_no_false_positive_{xls,xls_real,ooxml,"
-        "ooxml_dirs,ods}: no FILEPASS / a zip signature (Header::from_reader rejects PK\\x03\\x04) / no encryption-data never give "
-        "Password. Tie: generated encrypted containers (random ciphertext and layouts), FILEPASS type 0/1 at several positions in "
-        "Workbook and Book streams, manifests with one/many encrypted entries, against every unencrypted workbook of the other "
-        "generators and all fixtures, through Xlsx::new, Xlsb::new, Xls::new, Ods::new.",
-   note=TB + " Partial: the step from file bytes to the directory chain for ANY container layout is C13's cfb_layout_independent (interface "
-        "lemma stated in notes/C20.md); the FORMAT/BoundSheet8/Lbl/ExternSheet/SST arms of the xls globals loop are an abstract "
-        "parameter `interp`; VbaProject::from_cfb, zip and quick-xml are outside the model.",
-   technique="Coq proof (induction over record lists / event lists / directory entries) + extracted-model correspondence on generated containers",
+   text="Coq theorems over Password.v/PasswordCfb.v (on Cfb.v): C20_filepass_is_password (+ _workbook/_book): for any leading records "
+        "with their CONTINUEs that the globals loop passes over, any FILEPASS body and any well-framed records after it the result "
+        "is Err Password; C20_encrypted_ooxml_is_password_any_layout / _encrypted_stream_is_password_any_layout: for EVERY container "
+        "holding an EncryptedPackage object and EVERY valid physical layout the check on the file BYTES is Err Password (composed "
+        "with C13_written_names_listed); C20_ods_encryption_data_is_password and C20_ods_manifest_spec; and the converse "
+        "C20_no_false_positive_{xls,xls_real,ooxml,ooxml_any_layout,ooxml_dirs,ods}. Totality: C20_no_panic_ooxml_check(_file), "
+        "_parse_dirs, _record_iter, _xls_globals(_real), _manifest_scan, _ods_new. Tie: generated encrypted containers (random "
+        "ciphertext and layouts; the whole Cfb.cfb_new model on files up to 40 kB), FILEPASS of BIFF8 XOR / RC4 and BIFF5 form at "
+        "several positions in Workbook and Book streams, manifests with one/many encrypted entries, damaged containers, against "
+        "every unencrypted workbook of the other generators and all fixtures, through Xlsx::new, Xlsb::new, Xls::new, Ods::new.",
+   note=TB + " The FORMAT/BoundSheet8/Lbl/ExternSheet/SST arms of the xls globals loop are an abstract parameter `interp` (their own slices model them); "
+        "VbaProject::from_cfb, zip and quick-xml are outside the model.",
+   technique="Coq proof (induction over record lists / event lists / directory entries; composition with the C13 byte-level theorem) + extracted-model correspondence",
    design_ref="5/C20"),
  "C03": dict(claimed=True,
    text="Coq theorems over XlsbRec.v (on RK, Utf16, Range): C03_varint_roundtrip (every record id in its 1- or 2-byte form and every "
@@ -216,18 +223,18 @@ P = {
    technique="Coq proof (byte-level round trips of header, DIFAT, FAT, directory, mini structures; chain induction with cache invariant) + extracted-encoder correspondence",
    design_ref="5/C13"),
  "C16": dict(claimed=True,
-   text="Coq theorems over Meta.v: xlsx and ods complete — C16_report_xlsx / C16_report_ods: for every logical workbook (ordered sheets "
-        "with names incl. XML-special and non-ASCII characters, visibility, kind; ordered defined names; date flag) and every legal "
-        "encoding (attribute order, prefixes, ignorable elements, relationship ids in any order, target spellings) the parsed record "
-        "equals the logical workbook, with projections C16_sheets_in_order_*, C16_defined_names_in_order_*, "
-        "C16_date_flag_reaches_cells_xlsx, C16_rels_roundtrip_xlsx; C16_tables_injective (visibility and kind tables). PARTIAL: xls — "
-        "C16_sheets_in_order_xls_partial (sheets in order, exact names in 8- or 16-bit storage, visibility, kind, date flag, junk "
-        "records anywhere) for workbooks without defined names; C16_date_flag_threaded_xls/_xlsb (every DateTime cell carries the "
-        "parsed flag); xlsb sheets/names and xls defined names are modelled and tied by correspondence only, not proved. Four known "
-        "classes with vm_compute refutations. Tie: generated workbooks of the four formats through sheet_names, sheets_metadata, "
-        "defined_names, worksheet_range.",
-   note=TB + " xls/xlsb defined-name formulas go through C14's Ptg decoder; zip and quick-xml are outside the model.",
-   technique="Coq proof (induction over sheet / name / event lists per format; injective tables) + extracted-model correspondence on generated workbooks",
+   text="Coq theorems over Meta.v, one complete parse-encode theorem per format: C16_report_xlsx, C16_report_ods, C16_report_xls, "
+        "C16_report_xlsb — for every logical workbook (ordered sheets with names incl. XML-special, non-ASCII and astral characters, "
+        "visibility, kind; ordered defined names; date flag) and every legal encoding (attribute order, any prefixes, ignorable "
+        "elements / junk records anywhere, relationship ids in any order, target spellings, 8- or 16-bit name storage, 1-2-byte record "
+        "types with 1-4-byte lengths) the parsed record equals the logical workbook; projections C16_sheets_in_order_*, "
+        "C16_defined_names_in_order_* (xlsb names rendered through C14's rpn_correct_xlsb; xls names through parse_defined_names with "
+        "$ exactly on absolute components and XTI resolution), C16_rels_roundtrip_*, C16_tables_injective, and "
+        "C16_date_flag_reaches_cells_{xlsx,xls,xlsb} composed with C10's date_iff_style theorems. No known class left (four repaired "
+        "in /repo). Totality: C16_no_panic_xlsx_open, C16_no_panic_ods_parse_content. Tie: generated workbooks of the four formats "
+        "through sheet_names, sheets_metadata, defined_names, worksheet_range, plus perturbed event lists / byte streams.",
+   note=TB + " <> Panic for the xls and xlsb workbook readers as a whole is not stated (tied by the raw tier only); zip and quick-xml are outside the model.",
+   technique="Coq proof (induction over sheet / name / record / event lists per format; injective tables) + extracted-model correspondence on generated workbooks",
    design_ref="5/C16"),
  "C01": dict(claimed=True,
    text="Coq theorems over XlsxSheet.v (on Col26, Range, HeaderRow), at the XML event level and for every oracle parse_f64: "
@@ -247,6 +254,20 @@ P = {
         "chunked text / CDATA / rich runs are C19's encoders.",
    technique="Coq proof (A1 arithmetic, cursor-invariant induction over rows/cells, reduction to from_sparse_spec) + extracted-model correspondence on real .xlsx files",
    design_ref="5/C01"),
+ "C19": dict(claimed=True,
+   text="Coq theorems over XmlText.v / Utf16.v at the XML event level: C19_read_string_item, C19_runs_concatenate, "
+        "C19_runs_at_any_cuts, C19_phonetic_contributes_nothing, C19_cdata_is_text, C19_shared_index_is_ith_item (incl. empty items), "
+        "C19_sheet_text_survives, C19_text_survives_xlsx, C19_formula_text_survives — for every text, every storage form (shared / "
+        "inline / formula string; plain, split into runs at arbitrary cut points, with phonetic runs; Text and CDATA chunks in any "
+        "mixture; any namespace prefix); the ST_Xstring layer: C19_xstring_decode_is_spec, C19_xstring_roundtrip, "
+        "C19_xstring_text_survives; ods: space runs (text:s with any count), paragraphs, tabs and line breaks (ods_encode_survives "
+        "for all texts); UTF-16: round trip and lone-surrogate characterisation for wide_str / decode_to. No known class left (five "
+        "repaired in /repo). Totality: C19_no_panic_read_string / _read_shared_strings / _read_cell / _read_sheet_cells / "
+        "_read_sheet_formulas / _ods_cell / _wide_str (all event lists / byte strings). Tie: generated .xlsx and .ods files "
+        "(escape material, CDATA, rich runs, tabs / breaks everywhere) through the public API, hooks wide_str / decode_to.",
+   note=TB + " quick-xml tokenisation / entity unescaping / attribute parsing and zip are outside the model; <f> text and untyped cells are not unescaped by the code and the spec does not ask for it.",
+   technique="Coq proof (state-machine induction over event lists; escape-layer arithmetic; UTF-16 codec) + extracted-model correspondence on real files",
+   design_ref="5/C19"),
 }
 REASON_TODO = "not claimed yet: model and theorems for this property are still being built (see DESIGN.md section 9)"
 
@@ -297,7 +318,7 @@ def main():
 
 # properties whose model is being brought up to date with fix: commits that just landed in /repo (their check
 # reports the stale model as a broken correspondence until the resync is merged); emptied as the resyncs land
-STALE = {"C02", "C03", "C05", "C12", "C14", "C16", "C18"}
+STALE = {"C02", "C03", "C14"}
 STALE_REASON = ("temporarily not claimed: the model is being resynchronised with the C06 hardening fix: commits (Panic -> Err at "
                 "file-declared lengths / indices / offsets); until that is merged the check reports the stale model as a broken "
                 "model/code correspondence")
